@@ -98,12 +98,18 @@ def build_doc(kind, ta, tb, leaves):
         a['stroke'] = '#00%d' % i
         if own[i]:
             a['transform'] = own[i]
+        if (ti + i) % 2 == 0:
+            a['style'] = ['stroke-width:1;', 'fill:url(http://example.com/defs#g%d)' % i, 'fill:none'][(ti + i) % 3]
         recs.append({'id': a['id'], 'tag': tag, 'attrib': dict(at), 'chain': [t for t in chain + [own[i]] if t],
                      'groups': groups})
         return '<%s%s/>' % (tag, attrs(a))
 
+    # style attributes in the spellings found in the wild (they carry no geometry, but every reader walks over them):
+    # trailing semicolon, a value that itself contains a colon, empty, spaces
+    STYLES = ['fill:none;stroke:#000;', 'fill:url(http://example.com/defs#grad);stroke-width:2', '', ' fill : red ; stroke-width : 2 ', 'stroke:#00f']
+
     def g(i, t):
-        return '<g id="g%d"%s>' % (i, (' transform="%s"' % t) if t else '')
+        return '<g id="g%d"%s style="%s">' % (i, (' transform="%s"' % t) if t else '', STYLES[(ti + i) % len(STYLES)])
     # every third document also carries a transform on the root <svg> element (an ancestor of everything)
     troot = TRANSFORMS[(ti + 2) % 10] if ti % 3 == 0 else None
     base = [troot] if troot else []
@@ -222,6 +228,17 @@ def check_doc(kind, ta, tb, acc, tmpdir, leaves, readers=None):
         m = geometry_matches(p, polys, size)
         if m:
             acc.violation('geometry_differs_from_reference', sig, case, observed=m, expected='reference shape %s chain %r' % (rec['tag'], rec['chain']))
+            return
+        # the returned object must also be a healthy Path: its own bbox / length agree with its own points (a path
+        # that came out of a document carries extra attributes - .transform, .element - that nothing may apply twice)
+        own = [z for pl in path_polylines(p, 120) for z in pl]
+        ex_ = (min(z.real for z in own), max(z.real for z in own), min(z.imag for z in own), max(z.imag for z in own))
+        bb = outcome(lambda: tuple(float(x) for x in p.bbox()))
+        plen = sum(abs(b - a) for pl in path_polylines(p, 120) for a, b in zip(pl, pl[1:]))
+        ln = outcome(lambda: float(p.length()))
+        if bb[0] != 'ok' or max(abs(a - b) for a, b in zip(bb[1], ex_)) > 2e-3 * size or ln[0] != 'ok' or not abs(ln[1] - plen) <= 2e-3 * max(plen, 1e-300):
+            acc.violation('returned_path_inconsistent_with_its_own_points', dict(sig, query='bbox' if (bb[0] != 'ok' or max(abs(a - b) for a, b in zip(bb[1], ex_)) > 2e-3 * size) else 'length'),
+                          case, observed=[bb, ln], expected=[ex_, plen])
             return
         if reader.startswith('Document') and with_tf:
             M = ref_matrix(rec['chain'])
